@@ -154,6 +154,155 @@ impl OpSpec for ExposeDerived {
     }
 }
 
+/// Jubjub scalar built in circuit from little-endian bytes (8·n bits) or from a native element
+/// (255 bits) and exposed. The off-circuit encoder only knows reduced scalars (and the count
+/// mismatch for wide scalars is a known finding of C18), so the oracle here is the in-circuit
+/// binding itself: two witnesses that are DIFFERENT scalars modulo the group order must be bound
+/// to different raw public inputs, and each circuit must accept its own bound vector and reject
+/// the other one.
+#[derive(Clone)]
+struct WideScalar {
+    /// Some(n): `scalar_from_le_bytes` of n bytes; None: `convert` of a native element
+    nb_bytes: Option<usize>,
+}
+
+impl OpSpec for WideScalar {
+    type In = Vec<u8>;
+
+    fn name(&self) -> String {
+        match self.nb_bytes {
+            Some(n) => format!("AssignedScalarOfNativeCurve<Jubjub>/scalar_from_le_bytes[{n}]+constrain"),
+            None => "AssignedScalarOfNativeCurve<Jubjub>/convert(native)+constrain".into(),
+        }
+    }
+    fn arch(&self) -> ZkStdLibArch {
+        arch_of(std::iter::once(Kind::JubScalar))
+    }
+    fn synth(&self, std: &ZkStdLib, l: &mut impl Layouter<F>, input: Value<Vec<u8>>) -> Result<(), Error> {
+        use midnight_circuits::{
+            instructions::{AssignmentInstructions, ConversionInstructions, PublicInputInstructions},
+            types::{AssignedByte, AssignedNative, AssignedScalarOfNativeCurve},
+        };
+        type T = AssignedScalarOfNativeCurve<midnight_curves::JubjubExtended>;
+        let s: T = match self.nb_bytes {
+            Some(n) => {
+                let vals: Vec<Value<u8>> = (0..n).map(|i| input.clone().map(|b| b[i])).collect();
+                let bytes: Vec<AssignedByte<F>> = std.assign_many(l, &vals)?;
+                std.jubjub().scalar_from_le_bytes(l, &bytes)?
+            }
+            None => {
+                let x: AssignedNative<F> = std.assign(l, input.clone().map(|b| {
+                    let mut r = [0u8; 32];
+                    r.copy_from_slice(&b[..32]);
+                    Option::<F>::from(F::from_bytes_le(&r)).unwrap_or(F::ZERO)
+                }))?;
+                std.jubjub().convert(l, &x)?
+            }
+        };
+        PublicInputInstructions::<F, T>::constrain_as_public_input(std.jubjub(), l, &s)
+    }
+    fn reference(&self, _: &Vec<u8>) -> Option<Vec<F>> {
+        None
+    }
+    fn n_input_positions(&self, _: &Vec<u8>) -> usize {
+        0
+    }
+}
+
+fn run_wide_scalar(nb_bytes: Option<usize>, thorough: bool, seed: u64, part: &mut Report, st: &mut ExpStats) {
+    use num_bigint::BigUint;
+    let op = WideScalar { nb_bytes };
+    let rel = OpRel(op.clone());
+    let sig = format!("C08/{}", op.name());
+    let mut rng = rng_for(seed, &sig);
+    let n = nb_bytes.unwrap_or(32);
+    let r_order = val::fbig(&(-midnight_curves::Fr::ONE)) + BigUint::from(1u8);
+    let p_native = val::fbig(&(-F::ONE)) + BigUint::from(1u8);
+    let Ok(k) = catch_any(|| MidnightCircuit::new(&rel, Value::unknown(), Value::unknown(), Some(8)).min_k()) else {
+        part.inconclusive(&format!("{sig}: min_k panicked"));
+        return;
+    };
+    let bound_of = |bytes: &Vec<u8>| -> Result<(Vec<F>, mzv::engines::ref_eval::Tables<F>), String> {
+        let circuit = MidnightCircuit::new(&rel, Value::known(vec![]), Value::known(bytes.clone()), Some(8));
+        let t = catch_any(|| collect::<F, _>(k, &circuit, &[vec![], vec![F::ZERO; 4]], CollectOpts::default())).map_err(|p| format!("panic: {}", p.message))??;
+        let n_bound = mzv::engines::catalogue::bound_len(&t, 1);
+        let b = mzv::engines::catalogue::bound_instance(&t, 1, &[]);
+        Ok((b[..n_bound.min(b.len())].to_vec(), t))
+    };
+    let value_of = |bytes: &Vec<u8>| -> BigUint { BigUint::from_bytes_le(&bytes[..n]) % &r_order };
+    let rounds = if thorough { 12 } else { 4 };
+    for round in 0..rounds {
+        // base value and a partner that differs only in high bits (positions >= 250)
+        let mut a: Vec<u8> = (0..n).map(|_| rng.gen()).collect();
+        if nb_bytes.is_none() {
+            // a native element: keep it below the native modulus
+            a[31] &= 0x0f;
+        }
+        let mut b = a.clone();
+        let bit = match round % 4 {
+            0 => 252,
+            1 => 253,
+            2 => 8 * n - 1,
+            _ => 250,
+        }
+        .min(8 * n - 1);
+        b[bit / 8] ^= 1 << (bit % 8);
+        if nb_bytes.is_none() && BigUint::from_bytes_le(&b[..32]) >= p_native {
+            continue;
+        }
+        if value_of(&a) == value_of(&b) {
+            continue;
+        }
+        part.eval();
+        let (ia, ta) = match bound_of(&a) {
+            Ok(x) => x,
+            Err(e) => {
+                part.violation(&format!("{sig}/synthesis-fails"), &format!("exposure circuit fails on admissible bytes: {e}"), json!({"bytes": hex::encode(&a)}));
+                continue;
+            }
+        };
+        let (ib, _tb) = match bound_of(&b) {
+            Ok(x) => x,
+            Err(e) => {
+                part.violation(&format!("{sig}/synthesis-fails"), &format!("exposure circuit fails on admissible bytes: {e}"), json!({"bytes": hex::encode(&b)}));
+                continue;
+            }
+        };
+        part.nontrivial(&("wide-scalar", nb_bytes, round));
+        st.honest += 2;
+        st.edits += 1;
+        let wit = json!({"op": op.name(), "bytes_a": hex::encode(&a), "bytes_b": hex::encode(&b), "flipped_bit": bit,
+            "bound_a": hexv(&ia), "bound_b": hexv(&ib)});
+        if ia == ib {
+            part.violation(
+                &format!("{sig}/distinct-values-share-an-encoding"),
+                &format!("two different scalars (witness bytes differing in bit {bit}) are bound to the same raw public inputs: the high bits of the scalar are not bound"),
+                wit,
+            );
+            continue;
+        }
+        // the circuit of a accepts its own vector and rejects b's
+        let mut t = ta;
+        for (i, v) in ia.iter().enumerate() {
+            t.instance[1][i] = *v;
+        }
+        if !t.violations(1).is_empty() {
+            part.violation(&format!("{sig}/rejects-own-binding"), "the exposure circuit is not satisfied by the vector it binds", wit);
+            continue;
+        }
+        if ib.len() <= t.instance[1].len() {
+            for i in 0..t.instance[1].len() {
+                t.instance[1][i] = ib.get(i).copied().unwrap_or(F::ZERO);
+            }
+            if t.violations(1).is_empty() {
+                part.violation(&format!("{sig}/accepts-other-value"), "the exposure circuit of scalar a is satisfied by the vector bound for a different scalar b", wit);
+                continue;
+            }
+        }
+        part.count(&format!("wide-scalar[{}].pairs_distinct", nb_bytes.map(|n| n.to_string()).unwrap_or("convert".into())));
+    }
+}
+
 fn run_derived(kind: Kind, op: usize, thorough: bool, seed: u64, part: &mut Report, out: &mut JobOut) {
     let mut rng = rng_for(seed, &format!("derived-{kind:?}-{op}"));
     let b = val::boundary(kind);
@@ -496,6 +645,8 @@ enum Job {
     Zkir { vals: Vec<zkir::ZVal> },
     /// exposure of the result of lazy arithmetic on emulated-field elements
     Derived { kind: Kind, op: usize },
+    /// in-circuit injectivity of wide Jubjub scalars
+    WideScalar { nb_bytes: Option<usize> },
 }
 
 impl Job {
@@ -520,6 +671,7 @@ impl Job {
             Job::Verifier { .. } => "verifier-types".into(),
             Job::Zkir { .. } => "zkir/publish".into(),
             Job::Derived { kind, op } => format!("{}/constrain-derived[{}]", kind.type_name(), val::DERIVED_OPS[*op]),
+            Job::WideScalar { nb_bytes } => format!("jubjub-scalar/wide[{nb_bytes:?}]"),
         }
     }
     fn weight(&self) -> usize {
@@ -538,6 +690,7 @@ impl Job {
             Job::Verifier { .. } => 200,
             Job::Zkir { vals } => 2 * vals.len(),
             Job::Derived { kind, .. } => kw(kind) * 10,
+            Job::WideScalar { .. } => 12,
         }
     }
 }
@@ -1163,6 +1316,10 @@ fn main() {
             jobs.push(Job::Verifier { idx: i });
         }
         jobs.push(Job::Verifier { idx: usize::MAX }); // AssignedVk
+        // E'': Jubjub scalars wider than the group order, built in circuit
+        for nb in [Some(32usize), Some(33), Some(40), None] {
+            jobs.push(Job::WideScalar { nb_bytes: nb });
+        }
         // E': derived (un-normalised) emulated-field elements
         for (ki, kind) in [Kind::SecpBase, Kind::SecpScalar, Kind::BlsBase].into_iter().enumerate() {
             for op in 0..val::DERIVED_OPS.len() {
@@ -1394,6 +1551,7 @@ fn run_job(idx: usize, job: &Job, thorough: bool, seed: u64, proto: &Report) -> 
         }
         Job::Zkir { vals } => zkir::check_publish(vals, part, &mut out.exp),
         Job::Derived { kind, op } => run_derived(*kind, *op, thorough, seed, part, out),
+        Job::WideScalar { nb_bytes } => run_wide_scalar(*nb_bytes, thorough, seed, part, &mut out.exp),
     };
     let mut out = JobOut { idx, key: job.key(), ..Default::default() };
     let mut part = proto.fork();
